@@ -17,11 +17,11 @@
    Whole-document explode works in place in document order; an anchored node
    is always completely exploded before any alias to it is reached, and
    exploding an exploded node changes nothing, so an alias node becomes the
-   explode of its target and a merge reads the exploded target.  (Exploding
-   only a sub-result - the printer does that for route 1 when the result is a
-   container - can see not-yet-exploded targets; that is modelled only for a
-   result that is itself an alias node, where explodeNode just copies the
-   target: [json_raw].)
+   explode of its target and a merge reads the exploded target.  Since the fix
+   "explode also explodes what it copies" the same function describes the
+   explode the printer applies to a single result of route 1: an alias takes
+   an exploded copy of its target, a merge works on an exploded copy of the
+   merged map, whether or not the target was exploded before.
 
    Recursion into children/targets is on explicit fuel. *)
 From Coq Require Import List NArith Bool.
@@ -49,18 +49,12 @@ Definition entries := list (str * node).
 (* ------------------------------------------------------------------ *)
 
 (* node.Content of a map is the flat list key, value, key, value ...; what
-   overrideEntry compares is  n.Value == key.Value && n.Alias == nil.
-   Value of a key / scalar is its text, of a map / sequence the empty
-   string; an alias node never matches. *)
-Definition node_text (v : node) : option str :=
-  match v with
-  | Sc _ s => Some s
-  | Sq _ _ | Mp _ _ => Some []
-  | Al _ => None
-  end.
-
+   overrideEntry compares is  n.IsMapKey && n.Value == key.Value && n.Alias == nil
+   (keys are plain scalars here), so only the key positions can match; the
+   value positions are kept as None because the scan may start at an odd
+   index (for a merge list it starts at the index inside the list). *)
 Definition flat_texts (es : entries) : list (option str) :=
-  flat_map (fun kv => [Some (fst kv); node_text (snd kv)]) es.
+  flat_map (fun kv => [Some (fst kv); None]) es.
 
 Fixpoint every2 {A : Type} (l : list A) : list A :=
   match l with
@@ -277,16 +271,11 @@ Fixpoint json_raw (t : node) : str :=
 (* ------------------------------------------------------------------ *)
 (* the three routes, as printed with -o=json -I0                       *)
 (* ------------------------------------------------------------------ *)
-(* what the printer does with one result of route 1: a scalar prints; an
-   alias node is turned into a copy of its target by explodeNode (no
-   recursion) and then encoded; a map / sequence result would be exploded
-   in place against targets that were never exploded - not modelled *)
-Definition print_result1 (r : tres) : res str :=
+(* what the printer does with one result of route 1: explode it, encode it *)
+Definition print_result1 (fuel : nat) (r : tres) : res str :=
   match r with
   | TEmpty => ROk []
-  | TNode (Sc _ s) => ROk (json_scalar s)
-  | TNode (Al t) => ROk (json_raw t)
-  | TNode _ => RUnmodelled
+  | TNode n => rbind (explode fuel n) (fun n' => ROk (json_raw n'))
   end.
 
 Definition print_clean (r : tres) : res str :=
@@ -296,7 +285,7 @@ Definition print_clean (r : tres) : res str :=
   end.
 
 Definition route1 (fuel : nat) (d : node) (p : list step) : res str :=
-  rbind (traverse fuel d p) print_result1.
+  rbind (traverse fuel d p) (print_result1 fuel).
 
 Definition route2 (fuel : nat) (d : node) (p : list step) : res str :=
   rbind (explode fuel d) (fun d' => rbind (traverse fuel d' p) print_clean).
@@ -373,7 +362,6 @@ Definition spec_lookup (k : str) (srcs : list entries) (expl : entries) : option
 
 Definition entry_plain (kv : str * node) : bool := negb (is_merge (fst kv)) && plain (snd kv).
 Definition keys (es : entries) : list str := map fst es.
-Definition value_texts (es : entries) : list (option str) := map (fun kv => node_text (snd kv)) es.
 
 (* `<<: *s` for one source, `<<: [*s1, *s2, ...]` otherwise; every source is an anchored map *)
 Definition merge_value (srcs : list entries) : node :=
@@ -382,15 +370,11 @@ Definition merge_value (srcs : list entries) : node :=
   | _ => Sq false (map (fun s => Al (Mp true s)) srcs)
   end.
 
-(* the domain: no key occurs twice among the sources (inside one or across two),
-   no source key is empty, sources and explicit entries hold plain values under
-   keys other than <<, explicit keys are pairwise different, and no explicit
-   VALUE is spelled like a merged key (overrideEntry scans value nodes when it
-   is handed an odd list index) *)
+(* the domain: no key occurs twice among the sources (inside one or across
+   two), sources and explicit entries hold plain values under keys other than
+   <<, explicit keys are pairwise different *)
 Definition merge_simple (srcs : list entries) (expl : entries) : Prop :=
   NoDup (flat_map keys srcs)
   /\ (forall s, In s srcs -> forallb entry_plain s = true)
-  /\ ~ In [] (flat_map keys srcs)
   /\ NoDup (keys expl)
-  /\ forallb entry_plain expl = true
-  /\ (forall k, In k (flat_map keys srcs) -> ~ In (Some k) (value_texts expl)).
+  /\ forallb entry_plain expl = true.
